@@ -19,12 +19,12 @@ TGen ==
   /\ IsEvent("TypeGen")
   /\ LET e == Rec[l]
          S == MergeItems(CatFiles(e.schemaFiles, 1))
-         cfg == [allowUndefined |-> e.cfg.allowUndefined, scalars |-> e.scalars, modelPlugin |-> e.cfg.modelPlugin, modelTypes |-> e.modelTypes]
+         cfg == [allowUndefined |-> e.cfg.allowUndefined, scalars |-> e.scalars, modelPlugin |-> e.cfg.modelPlugin, modelTypes |-> e.modelTypes, runtime |-> e.cfg.runtime]
      IN IF e.panicked THEN Report(e, {Item("panic", "generate panicked", [diag |-> e.diag])})
         ELSE IF e.exit # 0 THEN Report(e, {Item("generate-failed", "generate failed on a valid schema", [diag |-> e.diag])})
         ELSE IF e.schemaTs.k # "ok" THEN Report(e, {Item("schema-dts-" \o e.schemaTs.k, "the schema declaration file is missing or not well-formed", [why |-> IF e.schemaTs.k = "unreadable" THEN e.schemaTs.why ELSE ""])})
         ELSE LET env == [schema |-> e.schemaTs.stmts, local |-> e.schemaTs.stmts, schemaNs |-> ""]
-                 its1 == SchemaDeclItems(S, cfg, env)
+                 its1 == SchemaDeclItems(S, cfg, env) \cup EnumRuntimeItems(S, cfg, e.schemaTs.stmts)
                  its2 == IF ~e.want.resolvers THEN {}
                          ELSE IF e.resolversTs.k # "ok" THEN {Item("resolvers-dts-" \o e.resolversTs.k, "the resolvers declaration file is missing or not well-formed", [why |-> IF e.resolversTs.k = "unreadable" THEN e.resolversTs.why ELSE ""])}
                          ELSE ResolversItems(S, cfg, [schema |-> e.schemaTs.stmts, local |-> e.resolversTs.stmts, schemaNs |-> e.resolversTs.schemaNs], ExcludedResolvers(S, cfg))
